@@ -73,11 +73,72 @@ func whitespaceAgreement(c *core.Ctx, p *load.Prog) {
 		}
 		return true
 	})
+	// the bytes a clause skips: constants of a tagged switch's case list, or the
+	// constants a tagless switch's / an if's condition compares the byte with
+	// (b == ' ' || b == '\t'), in a clause that neither returns nor un-reads
 	skipSet := map[int]bool{}
+	leaves := func(stmts []ast.Stmt) bool {
+		out := false
+		for _, st := range stmts {
+			ast.Inspect(st, func(k ast.Node) bool {
+				switch y := k.(type) {
+				case *ast.ReturnStmt:
+					out = true
+				case *ast.BranchStmt:
+					if y.Tok == token.BREAK {
+						out = true
+					}
+				case *ast.CallExpr:
+					if isMethodCall(y, "tr", "unreadByte") {
+						out = true
+					}
+				}
+				return true
+			})
+		}
+		return out
+	}
+	eqConsts := func(e ast.Expr) []int {
+		var vals []int
+		ast.Inspect(e, func(k ast.Node) bool {
+			if be, ok := k.(*ast.BinaryExpr); ok && be.Op == token.EQL {
+				if t := info.TypeOf(be.X); t != nil {
+					if b, isB := t.Underlying().(*types.Basic); isB && b.Kind() == types.Uint8 {
+						if v, isC := constInt(info, be.Y); isC {
+							vals = append(vals, v)
+						}
+					}
+				}
+			}
+			return true
+		})
+		return vals
+	}
 	ast.Inspect(skip.Body, func(n ast.Node) bool {
-		if cc, ok := n.(*ast.CaseClause); ok {
-			for _, e := range cc.List {
+		switch x := n.(type) {
+		case *ast.CaseClause:
+			// a clause that falls through to a skipping clause skips as well; a
+			// clause is judged by its own statements unless it ends in fallthrough
+			body := x.Body
+			if len(body) > 0 {
+				if br, isBr := body[len(body)-1].(*ast.BranchStmt); isBr && br.Tok == token.FALLTHROUGH {
+					body = nil
+				}
+			}
+			if leaves(body) {
+				return true
+			}
+			for _, e := range x.List {
 				if v, ok := constInt(info, e); ok {
+					skipSet[v] = true
+				}
+				for _, v := range eqConsts(e) {
+					skipSet[v] = true
+				}
+			}
+		case *ast.IfStmt:
+			if !leaves(x.Body.List) {
+				for _, v := range eqConsts(x.Cond) {
 					skipSet[v] = true
 				}
 			}
@@ -767,6 +828,12 @@ func scanLimitedBufio(info *types.Info, files []*ast.File, report func(fn, what 
 						if strings.HasSuffix(sig.Recv().Type().String(), "bufio.Reader") {
 							switch callee.Name() {
 							case "ReadSlice", "ReadLine", "Peek":
+								// ReadSlice in a loop that goes on while the error is
+								// bufio.ErrBufferFull takes a line of any length, a
+								// buffer's worth at a time (what ReadBytes does inside)
+								if callee.Name() == "ReadSlice" && loopsOnBufferFull(info, fd, y) {
+									break
+								}
 								report(fd.Name.Name, "(*bufio.Reader)."+callee.Name(), y.Pos())
 							}
 						}
@@ -1300,4 +1367,29 @@ func reservedWordsAreTheFormats(c *core.Ctx, p *load.Prog) {
 	if tables == 0 {
 		c.Undecide("no table from spellings to token kinds found: how reserved words are recognised is not understood")
 	}
+}
+
+
+// loopsOnBufferFull: the call sits in a for loop of fd whose body compares an
+// error with bufio.ErrBufferFull.
+func loopsOnBufferFull(info *types.Info, fd *ast.FuncDecl, call *ast.CallExpr) bool {
+	found := false
+	ast.Inspect(fd.Body, func(n ast.Node) bool {
+		loop, ok := n.(*ast.ForStmt)
+		if !ok || !(loop.Pos() <= call.Pos() && call.End() <= loop.End()) {
+			return true
+		}
+		ast.Inspect(loop, func(m ast.Node) bool {
+			if sel, ok := m.(*ast.SelectorExpr); ok && sel.Sel.Name == "ErrBufferFull" {
+				if id, ok := sel.X.(*ast.Ident); ok {
+					if pn, ok := info.ObjectOf(id).(*types.PkgName); ok && pn.Imported().Path() == "bufio" {
+						found = true
+					}
+				}
+			}
+			return true
+		})
+		return true
+	})
+	return found
 }
